@@ -87,6 +87,8 @@ def build_impl(variant="plain", extra_harness=()):
         hh = headers_hash()
         inc = ["-I" + os.path.join(REPO, "include"), "-I" + os.path.join(REPO, "src")]
         common = ["-D" + GUARD + "=1", "-Wall", "-Wno-unknown-pragmas", "-funwind-tables"] + flags + inc
+        if variant == "plain":
+            common = common + ["-DSBH_WRAP=1"]
         jobs = []
         objs = []
         for rel in SRC_LIB:
